@@ -504,8 +504,106 @@ async fn scenario(ctx: &Ctx, rng: &mut Rng, epmd: &net::EpmdTable, id: usize, sc
     }
 }
 
+/// Two calls are outstanding; the reply to the first arrives in two pieces with more than the connection's fixed
+/// 10 s between them, and from the second piece on its bytes read like a frame of their own, addressed to the second
+/// call. Whatever the node makes of the stall, the second call may only ever return its own reply or an error.
+async fn stalled_frame(ctx: &Ctx, epmd: &net::EpmdTable, id: usize) {
+    let name = format!("stall{}", id);
+    let pl = net::listen_as(epmd, &name).await;
+    let (uid_a, uid_b) = (7_000_000 + id as i128 * 10, 7_000_001 + id as i128 * 10);
+    let peer_task = tokio::spawn(async move {
+        let Ok(mut peer) = pl.accept("cookie", PEER_BASE_FLAGS, 86).await else { return false };
+        if peer.handshake().await.is_err() {
+            return false;
+        }
+        let mut reqs: Vec<Request> = Vec::new();
+        while reqs.len() < 2 {
+            match tokio::time::timeout(Duration::from_secs(5), peer.read_frame4()).await {
+                Ok(Ok(f)) => {
+                    if let Some(r) = parse_request(&f) {
+                        reqs.push(r);
+                    }
+                }
+                _ => return false,
+            }
+        }
+        let (Some(a), Some(b)) = (reqs.iter().find(|r| r.uid == uid_a), reqs.iter().find(|r| r.uid == uid_b)) else { return false };
+        // what the tail of A's reply reads like on its own: a SEND to B's reply pid carrying {rex, {reply_for, A}}
+        let inner_body = reply_frame(&b.reply_to, uid_a);
+        let mut inner = (inner_body.len() as u32).to_be_bytes().to_vec();
+        inner.extend_from_slice(&inner_body);
+        // A's real reply: {rex, <<inner>>}
+        let control = Val::Tuple(vec![Val::int(2), Val::atom(""), a.reply_to.clone()]);
+        let payload = Val::Tuple(vec![Val::atom("rex"), Val::binary(&inner)]);
+        let mut body = vec![112u8];
+        body.extend(ref_encode_canonical(&control).unwrap());
+        body.extend(ref_encode_canonical(&payload).unwrap());
+        let mut whole = (body.len() as u32).to_be_bytes().to_vec();
+        whole.extend_from_slice(&body);
+        let split = whole.len() - inner.len();
+        if whole[split..] != inner[..] {
+            return false;
+        }
+        let _ = peer.sock_write(&whole[..split]).await;
+        tokio::time::sleep(Duration::from_millis(10_700)).await;
+        let _ = peer.sock_write(&whole[split..]).await;
+        tokio::time::sleep(Duration::from_millis(2500)).await;
+        true
+    });
+    let mut node = edp_node::Node::new(format!("stalled{}@127.0.0.1", id), "cookie");
+    if let Err(e) = node.start(0).await {
+        ctx.inconclusive(&format!("Node::start failed: {}", e));
+        peer_task.abort();
+        return;
+    }
+    let peer_node = format!("{}@127.0.0.1", name);
+    if let Err(e) = node.connect(peer_node.clone()).await {
+        ctx.inconclusive(&format!("Node::connect failed: {}", e));
+        peer_task.abort();
+        return;
+    }
+    let node = Arc::new(node);
+    let call = |uid: i128| {
+        let (node, peer_node) = (node.clone(), peer_node.clone());
+        tokio::spawn(async move { node.rpc_call_raw_with_timeout(&peer_node, "m", "f", vec![OwnedTerm::Integer(uid as i64)], Duration::from_millis(12_500)).await.map(|t| val_of(&t)).map_err(|e| e.to_string()) })
+    };
+    let (ca, cb) = (call(uid_a), call(uid_b));
+    let ra = tokio::time::timeout(Duration::from_secs(25), ca).await;
+    let rb = tokio::time::timeout(Duration::from_secs(25), cb).await;
+    let scripted = tokio::time::timeout(Duration::from_secs(5), peer_task).await.ok().and_then(|r| r.ok()).unwrap_or(false);
+    ctx.eval(2);
+    ctx.class("stalled-frame/reply-in-two-pieces-more-than-10s-apart");
+    if !scripted {
+        ctx.inconclusive("the scripted peer could not play the stalled-frame script");
+        return;
+    }
+    for (which, uid, r) in [("first", uid_a, &ra), ("second", uid_b, &rb)] {
+        match r {
+            Err(_) => ctx.viol("C17:stall:after-a-stalled-frame", "a call did not return within 25 s (timeout 12.5 s)", json!({"call": which})),
+            Ok(Err(e)) => ctx.viol("C17:caller-panicked", "a calling task panicked", json!({"panic": e.to_string()})),
+            Ok(Ok(Err(_))) => {}
+            Ok(Ok(Ok(v))) => {
+                let own = Val::Tuple(vec![Val::atom("rex"), Val::Tuple(vec![Val::atom("reply_for"), Val::int(uid)])]);
+                // the first call may also get its real reply ({rex, <<...>>}) if the node waited the stall out
+                let real_a = which == "first" && matches!(v, Val::Tuple(t) if t.len() == 2 && t[0] == Val::atom("rex") && matches!(t[1], Val::Bits { .. }));
+                if !v.same(&own) && !real_a {
+                    ctx.viol(
+                        "C17:wrong-reply:after-a-stalled-frame",
+                        "a call returned bytes that were part of the reply addressed to another call (the frame had stalled for more than the connection's timeout and its tail was read as a frame of its own)",
+                        json!({"call": which, "caller_uid": uid.to_string(), "got": v.show()}),
+                    );
+                }
+            }
+        }
+    }
+    tokio::time::sleep(Duration::from_millis(50)).await;
+    if node.pending_rpc_count() != 0 {
+        ctx.viol("C17:bookkeeping-left-behind:after-a-stalled-frame", "after both calls returned the outstanding-call table is not empty", json!({"entries_left": node.pending_rpc_count()}));
+    }
+}
+
 pub fn run(ctx: &Ctx) {
-    ctx.rule("scenarios = 1..64 concurrent callers through one Node against a scripted rex peer x reply scripts (in order, reversed, shuffled, duplicated, some missing, some later than the caller's timeout, replies to unknown addressees, peer closes mid-run, mixed) + a second wave of calls that is outstanding while the peer delivers the first wave's late replies and repeats replies to completed calls + six callers issuing short calls in a loop while the peer's socket goes away at a seeded moment and the receiver deregisters the connection + calls made (and timed out) before Node::start, against an EPMD that hands out creation 1, 2, 3 or a 32-bit one, answered while later calls are outstanding + a call to an unconnected node + a call whose request cannot be sent, on a current-thread runtime with seeded yields at the insert/send/remove and lookup/remove hooks and on a multi-thread runtime; oracle: every Ok result carries the caller's own id, every call ends, the outstanding-call table is empty at quiescence; evaluations = calls judged; distinct = distinct (script, caller count, runtime) combinations");
+    ctx.rule("scenarios = 1..64 concurrent callers through one Node against a scripted rex peer x reply scripts (in order, reversed, shuffled, duplicated, some missing, some later than the caller's timeout, replies to unknown addressees, peer closes mid-run, mixed) + a second wave of calls that is outstanding while the peer delivers the first wave's late replies and repeats replies to completed calls + six callers issuing short calls in a loop while the peer's socket goes away at a seeded moment and the receiver deregisters the connection + calls made (and timed out) before Node::start, against an EPMD that hands out creation 1, 2, 3 or a 32-bit one, answered while later calls are outstanding + two outstanding calls while the reply to the first stalls in the middle for more than the connection's 10 s and its tail reads like a frame for the second + a call to an unconnected node + a call whose request cannot be sent, on a current-thread runtime with seeded yields at the insert/send/remove and lookup/remove hooks and on a multi-thread runtime; oracle: every Ok result carries the caller's own id, every call ends, the outstanding-call table is empty at quiescence; evaluations = calls judged; distinct = distinct (script, caller count, runtime) combinations");
     ctx.assume("call timeouts 120..300 ms real time; a call returning later than timeout + 1.5 s is inconclusive, only the 20 s watchdog is a violation");
     let mut rng = Rng::derive(ctx.seed, 17, 1);
     let n = ctx.pick(36usize, 3000usize);
@@ -513,14 +611,24 @@ pub fn run(ctx: &Ctx) {
         let rt = tokio::runtime::Builder::new_current_thread().enable_all().build().expect("runtime");
         rt.block_on(async {
             let epmd = net::start_epmd().await;
+            let epmd = &epmd;
+            // concurrently (it mostly waits): a reply that stalls in the middle for longer than the connection's timeout
+            let stalls = async {
+                for k in 0..ctx.pick(1usize, 6usize) {
+                    stalled_frame(ctx, epmd, k).await;
+                }
+            };
+            let main_loop = async {
             for i in 0..n {
                 if !ctx.time_left() {
                     break;
                 }
                 let early = if i % 4 == 1 { 1 + rng.below(3) } else { 0 };
                 let creation = *rng.pick(&[1u32, 1, 2, 3, 0x5151_0001]);
-                scenario(ctx, &mut rng, &epmd, i, SCRIPTS[i % SCRIPTS.len()], true, early, creation).await;
+                scenario(ctx, &mut rng, epmd, i, SCRIPTS[i % SCRIPTS.len()], true, early, creation).await;
             }
+            };
+            tokio::join!(main_loop, stalls);
         });
     }
     {
